@@ -897,3 +897,56 @@ Proof.
       rewrite Z.div_add by lia. pose proof (Z.div_le_mono (Z.of_nat M - 1) (Z.of_nat M) (Z.of_nat n) ltac:(lia) ltac:(lia)). lia. }
     lia.
 Qed.
+
+(* ------------------------------------------------------------------ *)
+(* a stable list with failing lookups in between: failed calls draw no ticket, so the
+   selections that are made are exactly those of as many calls on the fixed list *)
+
+Definition succ_count (rs : list report) : nat := List.length (filter succeeds rs).
+
+Lemma rr_run_stable hs : hs <> [] -> forall rs c0, 0 <= c0 < two64 -> Stable hs rs ->
+  oks (snd (rr_run c0 rs)) = oks (picks_of hs (tickets c0 (succ_count rs))) /\
+  fst (rr_run c0 rs) = (c0 + Z.of_nat (succ_count rs)) mod two64.
+Proof.
+  intros Hne. induction rs as [|r rest IH]; intros c0 Hc St.
+  - simpl. rewrite Z.add_0_r, Z.mod_small by lia. auto.
+  - assert (St' : Stable hs rest) by (intros x Hx; apply St; right; exact Hx).
+    cbn [rr_run]. rewrite rr_step_spec. unfold succ_count. cbn [filter].
+    destruct (St r (or_introl eq_refl)) as [E|[e E]];
+      (assert (Sr : succeeds r = match hosts_step r with inl _ => true | inr _ => false end) by reflexivity);
+      rewrite E in Sr; rewrite Sr; rewrite E.
+    + specialize (IH ((c0 + 1) mod two64) ltac:(apply Z.mod_pos_bound; reflexivity) St').
+      destruct (rr_run ((c0 + 1) mod two64) rest) as [c2 os]. cbn [fst snd] in *.
+      destruct IH as [IH1 IH2]. fold (succ_count rest). cbn [List.length].
+      rewrite tickets_cons by exact Hc. split.
+      * cbn [picks_of map]. fold (picks_of hs (tickets ((c0 + 1) mod two64) (succ_count rest))).
+        rewrite pick_nth by (apply Z.mod_pos_bound, len_pos, Hne).
+        cbn [oks flat_map app]. fold (oks os).
+        fold (oks (picks_of hs (tickets ((c0 + 1) mod two64) (succ_count rest)))).
+        rewrite IH1. reflexivity.
+      * rewrite IH2, Zplus_mod_idemp_l. f_equal. unfold succ_count. cbn [List.length]. lia.
+    + specialize (IH c0 Hc St').
+      destruct (rr_run c0 rest) as [c2 os]. cbn [fst snd] in *.
+      destruct IH as [IH1 IH2]. fold (succ_count rest). split.
+      * cbn [oks flat_map app]. fold (oks os). exact IH1.
+      * exact IH2.
+Qed.
+
+Lemma rr_stable_fair hs rs c0 : NoDup hs -> hs <> [] -> 0 <= c0 < two64 -> Stable hs rs ->
+  c0 + Z.of_nat (succ_count rs) <= two64 ->
+  RRFair hs (oks (snd (rr_run c0 rs))) /\
+  rr_seq_b hs (oks (snd (rr_run c0 rs))) = true.
+Proof.
+  intros ND Hne Hc St Hw.
+  destruct (rr_run_stable hs Hne rs c0 Hc St) as [E _]. rewrite E.
+  assert (B : rr_seq_b hs (oks (picks_of hs (tickets c0 (succ_count rs)))) = true).
+  { rewrite tickets_nowrap by lia. apply rr_model_seq_oracle_gen; assumption. }
+  split; [apply rr_seq_sound; assumption|exact B].
+Qed.
+
+Lemma stable_b_sound hs rs : stable_b hs rs = true -> Stable hs rs.
+Proof.
+  unfold stable_b, Stable. rewrite forallb_forall. intros H r Hr. specialize (H r Hr).
+  destruct (hosts_step r) as [l|e]; [left|right; eauto].
+  apply (list_eqb_eq str_eqb str_eqb_eq) in H. subst. reflexivity.
+Qed.
